@@ -1,6 +1,7 @@
 """C18 - grid <-> table conversions preserve every value at its own coordinates (DESIGN §4 C18)."""
 from .. import q as Q
 from ..terms import callee, canon, const, is_const, is_int, kw, show, walk, NONE
+from ..paths import lookup
 from . import c05
 from . import common as K
 
@@ -109,7 +110,15 @@ def check(ctx):
             nm = dn[1][0]
             gname = ("attr", ("param", "grid"), "name")     # conditional expressions are stored on the un-negated test
             oku = nm[0] == "ifexp" and nm[1] == ("cmp", "is", gname, NONE) and nm[2] == const("scalars") and nm[3] == gname
-            ctx.check("R2", "%s|unnamed-dataarray-is-scalars" % GT, True if oku else (False if nm == ("attr", ("param", "grid"), "name") else None),
+            # the same choice as two paths (an if statement, or a conditional expression the engine has forked): "scalars" where the name
+            # is None, the name itself where it is not
+            named = lookup(p.decided, ("cmp", "is", gname, NONE))
+            if named is True:
+                oku = nm == const("scalars")
+            elif named is False:
+                oku = nm == gname
+            unguarded = nm == gname and named is None
+            ctx.check("R2", "%s|unnamed-dataarray-is-scalars" % GT, True if oku else (False if unguarded or (named is True and nm == gname) else None),
                       "an unnamed DataArray becomes the column 'scalars'", bad="an unnamed DataArray produces a None column name", fn=GT)
         ctx.check("R2", "%s|data-columns-in-step|%s" % (GT, tag), okd, "data columns are the raveled variables, in the order of their names", fn=GT)
         # extra coordinates appended with their own names
